@@ -1,8 +1,15 @@
 #!/bin/sh
-# Builds the symbolic executor from files on disk only (offline).
+# Builds the symbolic executor from files on disk only (offline) and runs its
+# differential self-test (library functions on pinned-symbolic vs concrete
+# arguments). The self-test result is informational: it never fails the setup.
 set -e
 cd "$(dirname "$0")"
 export GOFLAGS=-mod=mod GOPROXY=off GOSUMDB=off GOTOOLCHAIN=local
 mkdir -p bin evidence
 (cd engine && go build -o ../bin/gosym ./cmd/gosym)
+if ./check selftest quick >/tmp/vx-selftest.log 2>&1; then
+  echo "engine self-test: ok ($(tail -1 /tmp/vx-selftest.log))"
+else
+  echo "engine self-test: NOT ok (see /tmp/vx-selftest.log)"
+fi
 echo "setup ok"
